@@ -201,7 +201,7 @@ def make_roundtrip(init):
 
 def contracts(tier):
     quick = tier == "quick"
-    inits = [0xFFFF, 0x7DBD] if quick else [0xFFFF, 0x7DBD, 0x0001, 0x8000, 0xA5A5, 0x0000, 0x1234]
+    inits = [0xFFFF, 0x7DBD] if quick else [0xFFFF, 0x7DBD, 0x0001, 0x8000, 0xA5A5, 0x1234]     # (0x0000 is the LFSR fixed point: keystream never moves, covers vacuous)
     for iv in inits:
         yield ("ScramblerLFSR", f"init_{iv:04x}", make_lfsr(iv))
     for iv in inits:
